@@ -2905,6 +2905,89 @@ func c17r22(c *Ctx, r *Report) {
 	r.floor("constant-index character reads from the lower-cased key name", good, 3)
 }
 
+// c17r23: isExecuteAction says "this spec is NAME followed by a delimited argument". It learns that an
+// argument was masked SOMEWHERE in the spec, and takes the name from the leading letters — so it also has to
+// look at the character right after the name: that is where the argument of THIS action must begin (D66:
+// `a:execute1:reload(x)+up` was masked because of the reload that follows; `execute1` was accepted as execute
+// with the argument `:reload(x`, which was then really run as a shell command).
+func c17r23(c *Ctx, r *Report) {
+	l := c.L
+	r.rule("C17-R23", "A (every positive answer is dominated by a test of the character after the name)", "P1",
+		"in isExecuteAction, every return of an action type other than actIgnore is dominated by a branch whose condition depends on the character of the spec at the index len(<matched name>)",
+		"a misspelt action name followed by a real action with an argument is bound as the first action with a garbage argument, which may then be executed")
+	fn := l.Fn("fzf", "isExecuteAction")
+	ign := l.Const("fzf", "actIgnore")
+	if fn == nil || ign == nil || len(fn.Params) != 1 {
+		r.unest("anchors", token.NoPos, nil, "anchors isExecuteAction / actIgnore", "cannot resolve")
+		return
+	}
+	ignV, _ := constInt(ign)
+	str := fn.Params[0]
+	// the character after the name: str[len(x)] with x derived from a regexp FindString result
+	isAfterName := func(v ssa.Value) bool {
+		var x, i ssa.Value
+		switch t := v.(type) {
+		case *ssa.Index:
+			x, i = t.X, t.Index
+		case *ssa.Lookup:
+			x, i = t.X, t.Index
+		default:
+			return false
+		}
+		if x != ssa.Value(str) {
+			return false
+		}
+		for w := range backwardSlice(i, nil, nil) {
+			if call, ok := w.(*ssa.Call); ok && calleeName(call.Common()) == "builtin.len" {
+				for w2 := range backwardSlice(call.Call.Args[0], nil, nil) {
+					if c2, ok := w2.(*ssa.Call); ok && strings.HasSuffix(calleeName(c2.Common()), ".FindString") {
+						return true
+					}
+				}
+			}
+		}
+		return false
+	}
+	var tests []*ssa.If
+	eachInstr(fn, func(in ssa.Instruction) {
+		iff, ok := in.(*ssa.If)
+		if !ok {
+			return
+		}
+		for w := range backwardSlice(iff.Cond, func(*ssa.CallCommon) bool { return true }, nil) {
+			if isAfterName(w) {
+				tests = append(tests, iff)
+				return
+			}
+		}
+	})
+	n := 0
+	eachInstr(fn, func(in ssa.Instruction) {
+		ret, ok := in.(*ssa.Return)
+		if !ok || len(ret.Results) != 1 {
+			return
+		}
+		k, isK := constIntVal(retResult(ret, 0))
+		if isK && k == ignV {
+			return
+		}
+		n++
+		dom := false
+		for _, t := range tests {
+			if t.Block() != ret.Block() && t.Block().Dominates(ret.Block()) {
+				dom = true
+			}
+		}
+		if !dom {
+			r.bad(fmt.Sprintf("%s:positive return #%d follows a look at the character after the name", relName(fn), n), ret.Pos(), fn, "the argument begins right after the name", "an action type is returned without looking at the character that follows the matched name")
+		}
+	})
+	if len(tests) > 0 {
+		r.ok(relName(fn)+":the character after the name is tested", tests[0].Pos(), fn, fmt.Sprintf("%d positive returns, all dominated by the test of str[len(name)]", n))
+	}
+	r.floor("positive returns of isExecuteAction", n, 20)
+}
+
 // round8 runs the round-8 rules of a property (own and shared) after the property's older rules.
 func round8(c *Ctx, r *Report, prop string) {
 	switch prop {
@@ -2956,6 +3039,7 @@ func round8(c *Ctx, r *Report, prop string) {
 		c16r17(c, r)
 		c16r18(c, r)
 	case "C17":
+		c17r23(c, r)
 		c17r22(c, r)
 		c17r20(c, r)
 		c17r21(c, r)
